@@ -22,6 +22,7 @@ limitations under the License.
 
 #include <cmath>
 #include <iterator>
+#include <limits>
 
 #include "libcellml/analyserequation.h"
 #include "libcellml/analyserequationast.h"
@@ -1957,6 +1958,16 @@ std::string Analyser::AnalyserImpl::expression(const AnalyserEquationAstPtr &ast
     return res;
 }
 
+static int integerPart(double value)
+{
+    // Note: converting to an integer a value that is not finite or that is out
+    //       of the range of an integer is undefined behaviour.
+
+    return (std::isfinite(value) && (std::fabs(value) < double(std::numeric_limits<int>::max()))) ?
+               int(value) :
+               0;
+}
+
 std::string Analyser::AnalyserImpl::expressionUnits(const UnitsMaps &unitsMaps,
                                                     const UnitsMultipliers &unitsMultipliers)
 {
@@ -1969,7 +1980,7 @@ std::string Analyser::AnalyserImpl::expressionUnits(const UnitsMaps &unitsMaps,
         std::string unit;
 
         if (!unitsMultipliers.empty()) {
-            auto intExponent = int(unitsMultipliers[i]);
+            auto intExponent = integerPart(unitsMultipliers[i]);
             auto exponent = areNearlyEqual(unitsMultipliers[i], intExponent) ?
                                 convertToString(intExponent) :
                                 convertToString(unitsMultipliers[i], false);
@@ -1982,7 +1993,7 @@ std::string Analyser::AnalyserImpl::expressionUnits(const UnitsMaps &unitsMaps,
         for (const auto &unitsItem : unitsMap) {
             if ((unitsItem.first != "dimensionless")
                 && !areNearlyEqual(unitsItem.second, 0.0)) {
-                auto intExponent = int(unitsItem.second);
+                auto intExponent = integerPart(unitsItem.second);
                 auto exponent = areNearlyEqual(unitsItem.second, intExponent) ?
                                     convertToString(intExponent) :
                                     convertToString(unitsItem.second, false);
